@@ -39,6 +39,14 @@ var knownFuncs = func() map[string]bool {
 	return m
 }()
 
+// fullHygiene (NORM_FULL_HYGIENE=1): every local the callee declares gets the call's unique prefix.
+// The default renames exactly the callee locals that could capture a caller-side name placed inside
+// the inlined block: the assignment targets, every name of a copied failure handler, and - by
+// refusing the substitution - every name of a substituted argument. That is sufficient (those are
+// the only caller-side names that enter the callee's scope) and keeps the helper's own names,
+// which some rules read.
+var fullHygiene = os.Getenv("NORM_FULL_HYGIENE") != ""
+
 type textEdit struct {
 	start, end int
 	text       string
@@ -90,7 +98,7 @@ func (n *normalizer) inlinable(fd *ast.FuncDecl, sig *types.Signature, fn types.
 	if fd.Body == nil || fd.Type.TypeParams != nil {
 		return false
 	}
-	if sig.Variadic() || sig.TypeParams() != nil || sig.RecvTypeParams() != nil {
+	if sig.TypeParams() != nil || sig.RecvTypeParams() != nil {
 		return false
 	}
 	// named results must all be named (handled as locals); no defer/recover/labels/goto, no recursion
@@ -226,8 +234,9 @@ func (n *normalizer) bodyTextX(fd *ast.FuncDecl, file *ast.File, prefix string, 
 						rep = t
 					}
 					edits = append(edits, textEdit{n.off(z.Pos()) - base, n.off(z.End()) - base, rep})
-				} else if avoid != nil && avoid[z.Name] {
-					// a local of the callee whose name means something else at the call site
+				} else if fullHygiene || (avoid != nil && avoid[z.Name]) {
+					// a local of the callee: renamed so that it can never capture a name that means
+					// something else at the call site (targets, failure handler, substituted arguments)
 					o := info.Uses[z]
 					if o == nil {
 						o = info.Defs[z]
@@ -777,13 +786,36 @@ func (n *normalizer) inlineCallX(call *ast.CallExpr, file *ast.File, at token.Po
 			fmt.Fprintf(&sb, "_ = %s%s\n", prefix, fd.Recv.List[0].Names[0].Name)
 		}
 	}
-	if len(call.Args) != sig.Params().Len() {
+	np := sig.Params().Len()
+	variadicText := ""
+	if sig.Variadic() && !call.Ellipsis.IsValid() {
+		// f(a, b, xs...) is f(a, b, []T{xs...}); no extra arguments pass nil
+		if len(call.Args) < np-1 {
+			return n.fail(7)
+		}
+		vt := types.TypeString(sig.Params().At(np-1).Type(), q)
+		if len(call.Args) == np-1 {
+			variadicText = vt + "(nil)"
+		} else {
+			var parts []string
+			for _, a := range call.Args[np-1:] {
+				parts = append(parts, text(a))
+			}
+			variadicText = vt + "{" + strings.Join(parts, ", ") + "}"
+		}
+	} else if len(call.Args) != np {
 		return n.fail(7)
 	}
 	pi := 0
 	for _, f := range fd.Type.Params.List {
 		for _, nm := range f.Names {
 			p := sig.Params().At(pi)
+			if variadicText != "" && pi == np-1 {
+				pi++
+				fmt.Fprintf(&sb, "var %s%s %s = %s\n", prefix, p.Name(), types.TypeString(p.Type(), q), variadicText)
+				fmt.Fprintf(&sb, "_ = %s%s\n", prefix, p.Name())
+				continue
+			}
 			arg := call.Args[pi]
 			pi++
 			po := info.Defs[nm]
@@ -1048,6 +1080,34 @@ func (n *normalizer) rewriteStmt(st ast.Stmt, file *ast.File) (string, bool) {
 			}
 		}
 	case *ast.IfStmt:
+		// `if L && R(helper) {..}` without else: the helper call is conditional on L; the test is
+		// split into nested ifs (same evaluation order, same outcomes), the inner one is handled
+		// in the next round
+		if x.Init == nil && x.Else == nil {
+			cond := ast.Expr(x.Cond)
+			for {
+				pe, ok := cond.(*ast.ParenExpr)
+				if !ok {
+					break
+				}
+				cond = pe.X
+			}
+			if be, ok := cond.(*ast.BinaryExpr); ok && be.Op == token.LAND {
+				hasTarget := func(e ast.Node) bool {
+					found := false
+					ast.Inspect(e, func(y ast.Node) bool {
+						if c, isC := y.(*ast.CallExpr); isC && n.isTarget(c) {
+							found = true
+						}
+						return !found
+					})
+					return found
+				}
+				if !hasTarget(be.X) && hasTarget(be.Y) {
+					return "if " + text(be.X.Pos(), be.X.End()) + " {\nif " + text(be.Y.Pos(), be.Y.End()) + " " + text(x.Body.Pos(), x.Body.End()) + "\n}\n", true
+				}
+			}
+		}
 		wrapIf = x
 		if x.Init != nil {
 			as, ok := x.Init.(*ast.AssignStmt)
